@@ -13,7 +13,8 @@ try:
     for c in checks:
         t0 = time.time()
         r = subprocess.run([os.path.join(ROOT, "check"), c, "--tier", "quick"], capture_output=True, text=True)
-        lines = [l for l in r.stdout.splitlines() if l.startswith(("VIOLATION", "KNOWN-FINDING", "OK"))]
+        lines = [l for l in r.stdout.splitlines() if l.startswith(("VIOLATION", "OK"))] + \
+                [l[:300] for l in r.stdout.splitlines() if l.startswith("KNOWN-FINDING")]
         drift = [l for l in r.stderr.splitlines() if l.startswith("DRIFT")]
         res[c] = {"exit": r.returncode, "wall_s": round(time.time() - t0), "lines": lines[:6], "drift": drift[:3],
                   "detail": [l.strip() for l in r.stderr.splitlines() if "rejected" in l][:4]}
